@@ -5,6 +5,7 @@ CONSTANTS
   Maxes <- GenMaxesQuick
   Methods <- GenMethodsQuick
   Shardings <- GenShardings
+  Codes <- GenCodesQuick
   CfgSpace <- GenCfg
   MaxLen = 5
   AioForwardsMethod = TRUE
